@@ -40,7 +40,8 @@ CONFIGS = [
     ("help-cont", ["F %d" % (H["helpShort"] | H["helpLong"] | H["helpArg"] | H["helpArgFull"] | H["usageCont"] | H["argHidden"] | H["argDeprecated"] | H["usageShort"] | H["usageLong"]),
                    A("i0", "i,int", "mand"), A("s0", "s,str", "hidden"), A("s1", "old", "depr"), A("s2", "older", "repl=" + hx("--str")), A("vs0", "l,list")]),
     ("help-exit", ["F %d" % (H["helpShort"] | H["helpLong"] | H["helpArg"]), A("i0", "i,int"), A("s0", "s,str")]),
-    ("sources", ["F %d" % (H["readProgArg"] | H["envVarArgs"]), A("i0", "i,int"), A("s0", "s,str"), A("vi0", "v,vec"), A("b0", "f")]),
+    ("sources", ["F %d" % (H["readProgArg"] | H["envVarArgs"]), A("i0", "i,int"), A("s0", "s,str"), A("vi0", "v,vec"), A("b0", "f"),
+                 A("ca0", "a,arr"), A("ar0", "r,array"), A("tu0", "t,tuple"), A("bs0", "b,bits"), A("vb0", "vbool")]),
     ("endvalues", ["F %d" % H["endValues"], A("vi0", "v,vec", "multi"), A("vs0", "w,words", "multi"), A("s0", "-"), A("b0", "f")]),
     ("noabbr-verbose", ["F %d" % (H["noAbbr"] | H["verbose"] | H["listArgVar"] | H["usageCont"]), A("i0", "i,int"), A("s0", "str"), A("li0", "list"), A("b0", "f")]),
     ("brackets", ["F 0", "B", A("i0", "i,int"), A("b0", "f"), A("vs0", "n,names")]),
@@ -59,7 +60,8 @@ VALID = {
     "plain": [["-f", "-i", "5", "--str", "abc", "-v", "1,2,3", "--dbl=2.5", "-x"], ["-fx", "-i5", "-sabc"]],
     "help-cont": [["-i", "1", "--help"], ["--print-hidden", "-h"], ["--help-arg=int"], ["--help-arg-full", "i"], ["--help-short", "--help"], ["-i", "3", "-l", "a,b"]],
     "help-exit": [["--help"], ["-h"], ["--help-arg", "s"], ["-i", "7"]],
-    "sources": [["-i", "3", "-f"], ["--str", "x", "-v", "4,5"]],
+    "sources": [["-i", "3", "-f"], ["--str", "x", "-v", "4,5"], ["-a", "1,2", "-r", "7"], ["-a", "5"], ["-r", "9,9"], ["-t", "1,x,2.5"], ["-b", "3,15"],
+                ["--vbool", "9,10,11"]],
     "endvalues": [["-v", "1", "2", "3", "--endvalues", "pos"], ["-w", "a", "b", "-f", "free"]],
     "noabbr-verbose": [["--str", "a", "-i", "4", "--list", "1,2", "--list-arg-vars"], ["-f"]],
     "brackets": [["(", "-i", "3", ")", "-f"], ["-n", "a,b", "(", "(", ")", ")"], ["!", "-f"]],
@@ -192,13 +194,17 @@ def gen_case(seed, idx, tier):
             bn = prog
         fkind = rng.choice(["absent", "empty", "no-newline", "comments", "garbage", "valid"])
         if fkind != "absent" and "/" not in bn and bn not in ("", ".", ".."):
+            # fixed-size destinations filled from the file (their limit must hold for every source, not only for argv)
+            fixed = rng.choice(["-a 1,2,3,4\n", "-a 1,2,3,4,5\n", "-a 1,2\n-a 3,4\n", "-r 7,8\n-r 9,10\n", "-r 1,2,3,4\n", "-t 1,x,2.5,9\n",
+                                "-b 3,16\n", "--vbool 9,10,31\n", "-a 1\n-a 2\n-a 3\n-a 4\n-a 5\n"])
             content = {"empty": "", "no-newline": "-i 4", "comments": "# comment\n\n-i 4\n# x\n--str 'a b'\n",
                        "garbage": "".join(chr(rng.randint(1, 255)) for _ in range(rng.randint(1, 80))) + "\n",
-                       "valid": "-i 4\n--str x\n"}[fkind]
+                       "valid": rng.choice(["-i 4\n--str x\n", fixed, "-i 4\n" + fixed])}[fkind]
             extra += "P %s %s\n" % (hx(".progargs/%s.pa" % bn), hx(content))
         ekind = rng.choice(["unset", "empty", "valid", "unbalanced", "garbage"])
         if ekind != "unset" and bn and "=" not in bn:
-            val = {"empty": "", "valid": "-i 9 --str 'x y'", "unbalanced": "-s 'abc --str \"q", "garbage": rand_word(rng) + " " + rand_word(rng)}[ekind]
+            val = {"empty": "", "valid": rng.choice(["-i 9 --str 'x y'", "-a 1,2,3,4,5", "-r 7,8 -r 9,10", "-a 1,2,3 -a 4 -a 5", "-t 1,x,2.5,9", "-b 16"]),
+                   "unbalanced": "-s 'abc --str \"q", "garbage": rand_word(rng) + " " + rand_word(rng)}[ekind]
             extra += "E %s %s\n" % (hx(bn.upper()), hx(val))
         tag = "program-name"
     if rng.random() < 0.05:
